@@ -227,7 +227,11 @@ def run_c02(ck, fb, fbd):
     # closure delete an entity twice / miss a live one (counts and genus go wrong): shared with C01/C04
     owner_rule(c, cores, elem_effects(c))
     compute_rule(c)
+    # fast deletion = swap with the last entity + delete: a wrong relabelling of the caches corrupts the closure of later deletions
+    relabel_rules(c)
     gc = find_gc(c)
+    from .c04_c09 import leave_rule
+    leave_rule(ck, c, gc)
     core_ids = {f.id: k for k, f in cores.items()}
 
     # closure order + reverse iteration
@@ -451,6 +455,7 @@ def run_c03(ck, fb, fbd):
     lockstep(c, "L.props", ("grow", "erase", "clear"), {"props"}, skip_fns=("collapse_edge",))
     ck.rule("L.swap", "each swap_K_indices swaps the property elements of K and of both half-kinds side by side together with the definition, under identical conditions")
     lockstep(c, "L.swap", ("swap",), {"props"}, skip_fns=("collapse_edge",))
+    bool_storage_swap_rule(ck, fb)
     rm_rules(ck, fb)
 
 
@@ -684,6 +689,28 @@ def elem_effects(c):
             if tgt:
                 out[f.id].append(dict(cache=tgt[0], index=tgt[1], what=what, pos=pos, node=n, atoms=atoms_at(f, pos[0])))
     return out
+
+
+def bool_storage_swap_rule(ck, fb):
+    """PropertyStorageT<bool>::swap(i, j): std::vector<bool> has proxy references, and the kernel does swap an element with
+    itself (collapse_edge re-creates entities that keep their handle): only the save-a-bool form is correct for i == j"""
+    from .canon import Canon
+    ck.rule("C03.boolswap", "PropertyStorageT<bool>::swap saves data_[i] in a local of type bool, then assigns data_[j] -> data_[i] and the saved value -> data_[j] (correct also for i == j, unlike arithmetic/xor swaps on the proxies)")
+    fs = [f for f in fb.repo_fns() if f.name == "swap" and f.has_cfg and (f.cls or "").startswith("OpenVolumeMesh::PropertyStorageT<bool") and len(f.d["params"]) == 2 and f.d["params"][0]["t"] in ("size_t", "unsigned long")]
+    if len(fs) != 1:
+        raise AnalysisBroken("anchor vanished: PropertyStorageT<bool>::swap(size_t, size_t) (found %d)" % len(fs))
+    f = fs[0]
+    cn = Canon(f)
+    decls = [v for v, b, i in cn.decl.values()]
+    asg = []
+    for b, i, x in f.tops():
+        a = as_assign(x)
+        if a:
+            asg.append((b, i, cn.s(a[0]), cn.s(a[1])))
+    asg.sort(key=lambda z: (-z[0], z[1]))
+    tmp = cn.s(decls[0].get("init")) if len(decls) == 1 else ""
+    ok = len(decls) == 1 and decls[0]["t"] == "bool" and len(asg) == 2 and "data_[P0]" in tmp and asg[0][2:] == ("data_[P0]", "data_[P1]") and asg[1][2] == "data_[P1]" and asg[1][3] == tmp
+    (ck.ok if ok else lambda r, w, t: ck.violate(r, w, t, "C03.boolswap"))("C03.boolswap", f.where, "PropertyStorageT<bool>::swap: bool tmp = data_[i]; data_[i] = data_[j]; data_[j] = tmp (found locals %s, assignments %s)" % ([d["t"] for d in decls], ["%s = %s" % z[2:] for z in asg]))
 
 
 def swap_bool_rule(ck, fb):
